@@ -45,7 +45,7 @@ impl Redeemers {
             Len::Len(n) => arr.len() < n as usize,
             Len::Indefinite => true,
         } {
-            if is_break_tag(raw, "Redeemers")? {
+            if is_break_tag(raw, &len, "Redeemers")? {
                 break;
             }
             arr.push(Redeemer::deserialize_as_map_item(raw)?);
@@ -63,7 +63,7 @@ impl Redeemers {
             Len::Len(n) => arr.len() < n as usize,
             Len::Indefinite => true,
         } {
-            if is_break_tag(raw, "Redeemers")? {
+            if is_break_tag(raw, &len, "Redeemers")? {
                 break;
             }
             arr.push(Redeemer::deserialize_as_array_item(raw)?);
